@@ -779,11 +779,18 @@ func c10Unmount(ctx *core.Ctx, thorough bool) core.Result {
 				}(i)
 			}
 			time.Sleep(time.Duration(round%7) * 50 * time.Microsecond)
-			go c.Unmount()
+			unmounted := make(chan struct{})
+			go func() { c.Unmount(); close(unmounted) }()
 			wg.Wait()
-			// calls after Unmount fail
-			if r := s.do(call{kind: "stat", fidn: 1}); r == "" {
-				bad = "a call after Unmount returned success"
+			// calls after Unmount fail ("after": issued once Unmount has returned — the goroutine above may not even have
+			// started when the racing calls are through)
+			select {
+			case <-unmounted:
+				if r := s.do(call{kind: "stat", fidn: 1}); r == "" {
+					bad = "a call after Unmount returned success"
+				}
+			case <-time.After(W):
+				// an Unmount that does not return is a blocked goroutine: judged below
 			}
 			done <- bad
 		}()
